@@ -23,7 +23,7 @@ class Scenario:
     """one process-model call with everything needed to repeat or vary it"""
 
     def __init__(self, rng, kinds=None, coarse=False, modes=None, models=("NRTL", "UNIQUAC"), max_steps=30,
-                 p_synth=0.35, basis=None, allow_program=True, nonideal_orders=1, builtin_only=False, default_orders=0.0, long_runs=0.01):
+                 p_synth=0.35, basis=None, allow_program=True, nonideal_orders=1, builtin_only=False, default_orders=0.0, long_runs=0.01, narrow_ints=True):
         from pyvaporation.conditions import Conditions
         from pyvaporation.pervaporation import Pervaporation
 
@@ -57,7 +57,7 @@ class Scenario:
             if rng.random() < 0.5:
                 self.area, self.m0 = rng.randint(1, 20), rng.randint(1, 200)
         self.narrow = None
-        if self.numpy_inputs and rng.random() < 0.5:
+        if self.numpy_inputs and rng.random() < 0.5 and narrow_ints:
             # narrow integer numpy scalars (a uint8 / int16 column) next to Python-int step lengths: the values are exact, only
             # the dtype is narrow; the library must not do its arithmetic in that dtype (area x step length may exceed it).
             # Narrow FLOAT dtypes are not generated: the pinned library itself computes the first step in the dtype of a
